@@ -84,6 +84,7 @@ type Trans struct {
 	selfTerm         string
 	topFrame         *Frame
 	snapshots        map[string]State
+	splitTerms       []string // "extra split" hints: Boolean terms over the entry state to split hard obligations on
 	hdrOnce          sync.Once
 	hdr              string
 }
